@@ -151,7 +151,7 @@ def shrink(sc):
         return
     keys = ('g', 'c', 'p')
     triple = [bytes.fromhex(sc[k]) for k in keys]
-    for fi in (2, 1, 0):
+    for fi in (2, 1):
         ch, _ = R.split(triple[fi])
         n = len(ch)
         span = n // 2
@@ -159,6 +159,18 @@ def shrink(sc):
             for i in range(0, n - span + 1, max(1, span)):
                 yield dict(sc, **{keys[fi]: b''.join(ch[:i] + ch[i + span:]).hex()})
             span //= 2
+    # the theory must stay a *valid* theory: gamma is only shrunk by whole axioms
+    # (the chunks up to and including a Publish), never inside one
+    ch, _ = R.split(triple[0])
+    groups, cur = [], []
+    for c in ch:
+        cur.append(c)
+        if c and c[0] == R.OP['Publish']:
+            groups.append(cur); cur = []
+    if cur:
+        groups.append(cur)
+    for i in range(len(groups)):
+        yield dict(sc, g=b''.join(b''.join(g) for j, g in enumerate(groups) if j != i).hex())
 
 
 def describe(sc):
